@@ -9,6 +9,7 @@ from . import rules_clone as C
 from . import rules_equality as E
 from . import rules_build as B
 from . import rules_runtime as R
+from . import rules_template as TP
 
 RULES = {
     "T1": T.rule_T1,
@@ -28,11 +29,13 @@ RULES = {
     "A2": B.rule_A2,
     "A4": R.rule_A4,
     "A5": R.rule_A5,
+    "A6": TP.rule_A6,
     "A3": L.rule_A3,
     "D1": U.rule_D1,
     "D2": U.rule_D2,
     "D3": S.rule_D3,
     "D4": B.rule_D4,
+    "D5": U.rule_D5,
     "W1": S.rule_W1,
     "G3": R.rule_G3,
     "G4": S.rule_G4,
@@ -86,10 +89,11 @@ PROPS = {
         "Losslessness, positions and longest match depend on the character sequence and are not decided.",
     },
     "C14": {
-        "rules": ["D1"],
+        "rules": ["D1", "D5"],
         "claim": "Decides the bytes-vs-characters clause of C14 over the data crate: no UTF-8 byte length (str::len / String::len) reaches a "
         "character-count sink (take/skip/nth on chars(), a CharList(n) header, the result of get_char_list_len), and the literal parsers "
-        "contain no truncating char->u8 cast. Radix/escape processing and round-trips are value-level and not decided.",
+        "contain no truncating char->u8 cast; (D5) an escape accumulator that has been decoded is emptied before it accumulates the next "
+        "escape, on every path of the literal parsers (typestate over their MIR). Radix parsing and round-trips are value-level and not decided.",
     },
     "C15": {
         "rules": ["D2", "D3", "W1"],
@@ -148,13 +152,16 @@ PROPS = {
         "placeholders (W1). That each program computes the same result as when built alone is not decided.",
     },
     "C06": {
-        "rules": ["A1"],
+        "rules": ["A1", "A6"],
         "claim": "Decides the per-instruction clause of C06: on every Ok-returning path of each of the 55 instruction functions "
         "(path-partitioned abstract interpretation of their MIR against the GarnishData contract, callees summarised bottom-up) the "
         "operand-stack, value-stack and frame deltas and the jump result are the fixed constants of spec/arity.json - binary -2+1, "
         "unary -1+1, and/or -1 then +1 only on the non-jump edge, apply -2/+1v/+1f or -2+1, end_expression restoring the caller's "
-        "mark +1. Three work-list helpers are trusted summaries (named in the evidence). The dynamic depth of whole programs and the "
-        "builder's per-construct templates are not decided.",
+        "mark +1. Three work-list helpers are trusted summaries (named in the evidence). (A6) the builder's template for each "
+        "Definition is balanced as an inductive step: its handlers are interpreted under a builder contract, and with every operand "
+        "child assumed to leave one value and A1's per-instruction effects, the construct nets +1 (0 for a side-effect block and for "
+        "reapply), both arms of a conditional / logical operator join at the same depth, and the `$` stack is unchanged; space and "
+        "comma lists (n-ary) and the bare `;;` are excluded. The dynamic depth of whole programs is not decided.",
     },
     "C08": {
         "rules": ["A4", "A5", "A1", "G3", "T2"],
